@@ -322,7 +322,7 @@ mod inner {
     /// [`Collect`]: crate::collect::Collect
     /// [cache-docs]: crate::callsite#rebuilding-cached-interest
     pub fn rebuild_interest_cache() {
-        register_dispatch(dispatch::get_global());
+        rebuild_interest(dispatch::get_global());
     }
 
     /// Register a new [`Callsite`] with the global registry.
@@ -345,6 +345,10 @@ mod inner {
         // `Dispatch` it is now reachable through.
         dispatcher.collector().on_register_dispatch(dispatcher);
 
+        rebuild_interest(dispatcher);
+    }
+
+    fn rebuild_interest(dispatcher: &Dispatch) {
         // If the collector did not provide a max level hint, assume
         // that it may enable every level.
         let level_hint = dispatcher.max_level_hint().unwrap_or(LevelFilter::TRACE);
